@@ -186,7 +186,7 @@ CHECKS["C10"] = dict(
     assumptions=R_ASSUME,
     bounds=dict(quick="depth-1 domains (<= 40 values per type), 7 error codes, every call index",
                 thorough="full domains (<= 200 values per type), all 18 error codes"),
-    floor=dict(evaluations=dict(quick=200000, thorough=1000000)),
+    floor=dict(evaluations=dict(quick=150000, thorough=600000)),
 )
 
 CHECKS["C11"] = dict(
@@ -243,7 +243,7 @@ CHECKS["C02"] = dict(
     bounds=dict(quick="<= 8 depth-1 values per type; byte substitution on encodings <= 32 bytes on the two plain buffer readers; "
                       "structured mutations on all 8 bounded rigs",
                 thorough="<= 24 values per type; byte substitution <= 64 bytes; all 1-2 byte strings for every type"),
-    floor=dict(evaluations=dict(quick=5000000, thorough=20000000)),
+    floor=dict(evaluations=dict(quick=3000000, thorough=10000000)),
 )
 
 ENGINES.append(dict(name="codec-lab", path="checks/codec.cpp + harness/",
@@ -510,7 +510,7 @@ CHECKS["C07"] = dict(
          "context, reader rig) executions compared with the evolution model",
     assumptions=R_ASSUME,
     bounds=dict(quick="pool 3 (226 versions), all pairs, 4 readers, contexts on every 11th version", thorough="all pairs with EVERY version in all four wrapping contexts (225 x 225 x 4 contexts) + the quick configuration under ASan/UBSan"),
-    floor=dict(traces_validated_against_impl=dict(quick=2000000, thorough=4000000)),
+    floor=dict(traces_validated_against_impl=dict(quick=1500000, thorough=3000000)),
 )
 
 CHECKS["C08"] = dict(
@@ -605,7 +605,7 @@ CHECKS["C09"] = dict(
     rule="one case per ordered pair (symmetry) + one per (fungible pair, value of A); non-trivial = more than one byte on the wire; distinct by case id",
     assumptions=R_ASSUME,
     bounds=dict(quick="80 types, 6400 ordered pairs, <= 60 values per A", thorough="same"),
-    floor=dict(evaluations=dict(quick=8000, thorough=8000)),
+    floor=dict(evaluations=dict(quick=6000, thorough=6000)),
 )
 ENGINES.append(dict(name="fungible-lab", path="checks/c09_fungible.cpp", serves_properties=["C09"],
                     kind_free_text="compile-time trait matrix over all ordered type pairs + wire-compatibility runs for every true pair"))
